@@ -1,6 +1,31 @@
 from vlib import Job
 
-META = dict(bounds='', outside='', assumptions=[])
+META = dict(
+    technique='bounded symbolic execution of clang IR of the real sources (ir2c -> CBMC, SAT); real net/http/body.cpp, common/estring.cpp, '
+              'common/iovector.cpp included textually over a harness-defined ISocketStream',
+    bounds='chunk reader: chunked coding of a symbolic payload (quick: <= 2 bytes in 1 chunk for the fully symbolic jobs, <= 2 bytes in 2 chunks for the '
+           'byte-at-a-time and all-in-partial-body jobs; thorough: up to 4 bytes / 3 chunks, optional leading zero / upper-case hex size), symbolic split '
+           'between the partial body handed over by the header parser and the stream, every recv() returning a symbolic 1..3 (thorough 1..4) bytes, caller reads of '
+           'symbolic size followed by one read of everything; truncation at every byte position; arbitrary byte strings of length <= 5 (safety) / <= 4 (two '
+           'deliveries compared) in quick, <= 6 / <= 5 in thorough.  Content-Length / close-delimited reader: any stream of <= 8 (12) bytes, declared length 0..10 (14), '
+           '4 (6) reads of 1..3 bytes then one of everything; close() after 2 partial reads.  Writers: payload <= 4 bytes in <= 2 (<= 6 in <= 3) write()/writev() calls, '
+           'declared length 0..5; round trips through the matching reader.',
+    outside='Message header parsing (append_bytes, HeadersBase::parse, parse_start_line) and the body_size() framing decision: not encoded (second-priority scope, not reached); '
+            'BodyReadStream::readv and the overflow branch copy of SmartCloneIOV (the byte-wise translation of its symbolic-length memcpy of iovec structs loses pointer '
+            'provenance in CBMC: only BodyWriteStream::writev with a 2-entry vector is covered); chunk-size lines longer than the line buffer (LINE_BUFFER_SIZE = 4096 is the '
+            'real constant; the harness bound never fills it), chunk sizes >= 16, chunk extensions and trailers in well-formed messages (they occur only inside the arbitrary-byte jobs); '
+            'stream errors (a recv()/read() returning -1) and short write()s of the underlying stream; zero-length write() to the chunked writer (it emits the terminating chunk: '
+            'write sizes are >= 1 in the harness); messages longer than the bounds.',
+    assumptions=['stub ISocketStream "Wire" (harness): recv() returns 1..k bytes (never more than requested or left) and 0 at end of stream; read() returns min(count, bytes left) '
+                 '(fully-reading, as ISocketStream::read documents); write()/writev() accept everything; close() only records the call',
+                 'ISocketStream::skip_read (net/basic_socket.cpp, not included) is replaced by its documented contract: read count bytes and drop them, true iff all were there',
+                 'snprintf is replaced by an exact model of snprintf(buf, n, "%zx\\r\\n", v) for v < 65536 (format string and range are asserted at every call)',
+                 'the storage behind the chunk reader\'s line buffer pointer is WMAX+1 bytes instead of 4096: the stub never delivers more than WMAX bytes in total, so every access '
+                 'beyond them would be an access to bytes never received and is reported by the bounds check; the recv() request itself is asserted to stay inside the real 4096-byte region',
+                 'the jobs without a terminal read establish "end of body" as: reader in its finished state (close() == 0); chunked_after_end proves that in this state every read returns 0 '
+                 'for an arbitrary rest of the state',
+                 'logging macros have empty bodies', 'NDEBUG build: assert() compiled out (as shipped)', 'operator new never fails'],
+)
 SRC = 'C13/h_body.cpp'
 SH = ['libc.c']
 MAP = ['--map', '^@snprintf$=verif_snprintf_zx']
@@ -12,7 +37,7 @@ PNC = 'f__ZN6photon3net4http21ChunkedBodyReadStream14pos_next_chunkEi'
 WR = 'f__ZN4Wire'
 
 def US(R, I, G, F, H, M, MM, S):
-    # loop bounds of the real chunk reader, per loop (the unwinding assertions prove each of them sufficient):
+    # loop bounds of the real chunk reader, per loop (the unwinding assertions prove each of them sufficient for every input in the bound):
     # R read() outer loop, I read_from_line_buf loop (inlined into read), G get_new_chunk recv loop, F string_view::find,
     # H hex digits, M memcpy bytes, MM memmove bytes (compaction of an incomplete size line), S bytes per stub transfer
     return [RD + '.1:%d' % R, RD + '.0:%d' % I, GNC + '.0:%d' % G, PNC + '.0:%d' % F, PNC + '.1:%d' % H, 'verif_memcpy_n.0:%d' % M,
@@ -20,55 +45,97 @@ def US(R, I, G, F, H, M, MM, S):
 
 def D(**kw): return ['%s=%s' % (k, v) if v is not True else k for k, v in kw.items()]
 
-def J_(name, entry, defs, unwind, us=(), timeout=300, desc='', bounds=''):
-    return Job(name, SRC, entry, defines=defs, unwind=unwind, unwindset=list(us), shims=SH, ir2c=MAP, cbmc=OB, timeout=timeout, desc=desc, bounds=bounds)
+def J_(name, entry, defs, unwind, us=(), timeout=300, desc='', bounds='', mem=10):
+    return Job(name, SRC, entry, defines=defs, unwind=unwind, unwindset=list(us), shims=SH, ir2c=MAP, cbmc=OB, timeout=timeout, mem_gb=mem, desc=desc, bounds=bounds)
+
+def valid(pm, nc, kf=3, lz=False):
+    """defines + unwindset for a well-formed message family: payload <= pm bytes in <= nc chunks, recv fragments <= kf"""
+    z = 1 if lz else 0
+    wm = pm + (5 + z) * nc + 5
+    lines = 2 * nc + 1
+    srv = max(pm, kf)
+    d = dict(PMAX=pm, NCHUNK=nc, WMAX=wm, KFRAG=kf, SRVMAX=srv)
+    if lz: d['LEADZERO'] = True
+    us = US(R=lines + 1, I=lines + 2, G=4 + z, F=3 + z, H=2 + z, M=pm + 1, MM=3 + z, S=srv + 1)
+    return d, us, wm
 
 def jobs(tier):
     q = tier == 'quick'
-    T = 300 if q else 1700
+    T = 400 if q else 1750      # nominal quick wall times are 5..180 s on an idle core; the margin is for a loaded machine
     J = []
-    # ---- chunk reader on well-formed messages
-    pm, nc = (2, 1) if q else (3, 2)
-    wm = pm + 5 * nc + 5
-    lines = 2 * nc + 1
-    us = US(R=lines + 1, I=lines + 2, G=4, F=3, H=2, M=pm + 1, MM=3, S=max(pm, 3) + 1)
-    J.append(J_('chunked_exact_frag', 'harness_chunked_exact', D(PMAX=pm, NCHUNK=nc, WMAX=wm, KFRAG=3, NCALL=0, SRVMAX=max(pm, 3)), wm + 2, us, T,
-                'ChunkedBodyReadStream: one read of everything, symbolic partial-body split and recv fragmentation',
-                'payload <= %d bytes in <= %d chunks, recv fragments 1..3 bytes' % (pm, nc)))
+    # ---- chunk reader, well-formed messages (oracle B: exactly the payload, then end of body)
+    d, us, wm = valid(2, 1) if q else valid(3, 1)
+    J.append(J_('chunked_exact_frag', 'harness_chunked_exact', D(NCALL=0, **d), wm + 2, us, T,
+                'ChunkedBodyReadStream: one read of everything; symbolic partial-body split and recv fragmentation',
+                'payload <= %d bytes in 1 chunk, recv fragments 1..%d bytes' % (d['PMAX'], d['KFRAG'])))
+    d, us, wm = valid(2, 1)
+    ncf = 1 if q else 2
+    J.append(J_('chunked_exact_frag_sizes', 'harness_chunked_exact', D(NCALL=ncf, CMAX=2, **d), wm + 2, us, T,
+                'ChunkedBodyReadStream: symbolic caller read sizes on top of symbolic partial-body split and recv fragmentation',
+                'payload <= 2 bytes in 1 chunk, recv fragments 1..3 bytes, %d reads of 1..2 bytes then one of everything' % ncf))
+    if not q:
+        d, us, wm = valid(2, 1, kf=3, lz=True)
+        J.append(J_('chunked_exact_leadzero', 'harness_chunked_exact', D(NCALL=0, **d), wm + 2, us, T,
+                    'ChunkedBodyReadStream: size line with an optional leading zero, either hex case',
+                    'payload <= 2 bytes in 1 chunk, recv fragments 1..3 bytes'))
+    d, us, wm = valid(2, 1) if q else valid(3, 1)
+    nca = 1 if q else 2
+    J.append(J_('chunked_exact_sizes', 'harness_chunked_exact', D(NCALL=nca, CMAX=d['PMAX'], ALLPARTIAL=True, **d), wm + 2, us, T,
+                'ChunkedBodyReadStream: whole message received with the header, symbolic caller read sizes',
+                'payload <= %d bytes in 1 chunk, %d reads of 1..%d bytes then one of everything' % (d['PMAX'], nca, d['PMAX'])))
+    d2 = dict(d); d2['SRVMAX'] = wm
+    us2 = US(R=4, I=5, G=3, F=3, H=2, M=d['PMAX'] + 1, MM=3, S=wm + 1)
+    J.append(J_('chunked_exact_oneshot', 'harness_chunked_exact', D(NCALL=nca, CMAX=d['PMAX'], ONESHOT=True, **d2), wm + 2, us2, T,
+                'ChunkedBodyReadStream: symbolic partial-body split, each recv delivers all that is left, symbolic first read sizes',
+                'payload <= %d bytes in 1 chunk, %d reads of 1..%d bytes then one of everything' % (d['PMAX'], nca, d['PMAX'])))
+    J.append(J_('chunked_truncated', 'harness_chunked_exact', D(NCALL=0, TRUNC=True, TERMINAL=True, **d), wm + 2, us, T,
+                'ChunkedBodyReadStream on a message cut at a symbolic point: prefix of the payload, never reported complete unless only the final CRLF is missing',
+                'payload <= %d bytes in 1 chunk, cut at any byte, symbolic split and fragmentation' % d['PMAX']))
+    # several chunks
+    d, us, wm = valid(2, 2) if q else valid(3, 3)
+    d1 = dict(d); d1['KFRAG'] = 1
+    J.append(J_('chunked_multi_bytewise', 'harness_chunked_exact', D(NCALL=0, **d1), wm + 2, us, T,
+                'ChunkedBodyReadStream: several chunks, stream delivered one byte per recv, symbolic partial-body split',
+                'payload <= %d bytes in <= %d chunks' % (d['PMAX'], d['NCHUNK'])))
+    J.append(J_('chunked_multi_partial', 'harness_chunked_exact', D(NCALL=0, ALLPARTIAL=True, **d), wm + 2, us, T,
+                'ChunkedBodyReadStream: several chunks, whole message received with the header',
+                'payload <= %d bytes in <= %d chunks' % (d['PMAX'], d['NCHUNK'])))
+    if not q:
+        d, us, wm = valid(2, 2)
+        J.append(J_('chunked_multi_frag', 'harness_chunked_exact', D(NCALL=0, **d), wm + 2, us, T,
+                    'ChunkedBodyReadStream: several chunks, symbolic partial-body split and recv fragmentation',
+                    'payload <= 2 bytes in <= 2 chunks, recv fragments 1..3 bytes'))
     J.append(J_('chunked_after_end', 'harness_chunked_after_end', D(WMAX=4, PMAX=2), 8, US(2, 2, 2, 2, 2, 2, 2, 2), 300,
-                'finished chunk reader: every read returns 0 and touches nothing', 'arbitrary cursor/line size/remaining count'))
-    J.append(J_('chunked_exact_sizes', 'harness_chunked_exact', D(PMAX=pm, NCHUNK=nc, WMAX=wm, NCALL=2, CMAX=pm, SRVMAX=max(pm, 3), ALLPARTIAL=True, TERMINAL=True), wm + 2, us, T,
-                'ChunkedBodyReadStream: whole message received with the header, symbolic caller read sizes, terminal read',
-                'payload <= %d bytes in <= %d chunks, 2 reads of 1..%d bytes then one of everything, then the terminal read' % (pm, nc, pm)))
-    J.append(J_('chunked_exact_oneshot', 'harness_chunked_exact', D(PMAX=pm, NCHUNK=nc, WMAX=wm, NCALL=1, CMAX=pm, SRVMAX=wm, ONESHOT=True), wm + 2,
-                US(R=lines + 1, I=lines + 2, G=3, F=3, H=2, M=pm + 1, MM=3, S=wm + 1), T,
-                'ChunkedBodyReadStream: symbolic partial-body split, each recv delivers all that is left, symbolic first read size',
-                'payload <= %d bytes in <= %d chunks' % (pm, nc)))
-    J.append(J_('chunked_truncated', 'harness_chunked_exact', D(PMAX=pm, NCHUNK=nc, WMAX=wm, KFRAG=3, NCALL=0, SRVMAX=max(pm, 3), TRUNC=True, TERMINAL=True), wm + 2, us, T,
-                'ChunkedBodyReadStream on a message cut at a symbolic point: prefix of the payload, never reported complete',
-                'payload <= %d bytes in <= %d chunks, cut anywhere' % (pm, nc)))
-    wa = 6 if q else 8
-    J.append(J_('chunked_any', 'harness_chunked_any', D(WMAX=wa, PMAX=wa, GMAX=wa + 1, KFRAG=3, NCALL=0, SRVMAX=wa), wa + 2,
+                'finished chunk reader: every read returns 0 and touches nothing', 'arbitrary cursor / line size / remaining count'))
+    # ---- chunk reader, arbitrary bytes (oracles A and D)
+    wa = 5 if q else 6
+    J.append(J_('chunked_any_safe', 'harness_chunked_any', D(WMAX=wa, PMAX=wa, GMAX=wa + 1, KFRAG=3, NCALL=0, SRVMAX=wa, ANY_TERMINAL=True), wa + 2,
                 US(R=wa // 2 + 2, I=wa // 2 + 2, G=wa + 1, F=wa, H=wa, M=wa + 1, MM=wa + 1, S=wa + 1), T,
-                'ChunkedBodyReadStream on arbitrary bytes: two independent fragmentations agree; no out-of-bounds access, no endless loop',
+                'ChunkedBodyReadStream on arbitrary bytes: no out-of-bounds access, no endless loop, only bytes of the message delivered',
+                'any byte string of length <= %d, symbolic split and fragmentation, one read of everything and the read after it' % wa))
+    wa = 4 if q else 5
+    J.append(J_('chunked_any_fragindep', 'harness_chunked_any', D(WMAX=wa, PMAX=wa, GMAX=wa + 1, KFRAG=3, NCALL=0, SRVMAX=wa, TWO_RUNS=True), wa + 2,
+                US(R=wa // 2 + 2, I=wa // 2 + 2, G=wa + 1, F=wa, H=wa, M=wa + 1, MM=wa + 1, S=wa + 1), T,
+                'ChunkedBodyReadStream on arbitrary bytes: canonical delivery and a symbolic split/fragmentation give the same bytes and result',
                 'any byte string of length <= %d' % wa))
-    # ---- writers and round trips
-    J.append(J_('chunked_write', 'harness_chunked_write', D(PMAX=4, NCHUNK=2, WMAX=4 + 10 + 5), 22, [], T,
-                'ChunkedBodyWriteStream (write/writev/close) emits exactly the chunked coding', 'payload <= 4 bytes in <= 2 writes'))
-    J.append(J_('chunked_roundtrip', 'harness_chunked_write', D(PMAX=pm, NCHUNK=nc, WMAX=wm, KFRAG=3, NCALL=0, SRVMAX=max(pm, 3), ROUNDTRIP=True), wm + 2, us, T,
-                'ChunkedBodyWriteStream -> wire -> ChunkedBodyReadStream returns the payload', 'payload <= %d bytes in <= %d writes' % (pm, nc)))
-    J.append(J_('length_roundtrip', 'harness_length_write', D(PMAX=4, NCHUNK=2, WMAX=5, GMAX=5, NCALL=2, CMAX=3), 8, [], T,
-                'BodyWriteStream(N) passes the first N bytes; BodyReadStream(N) reads them back', 'payload <= 4 bytes in <= 2 writes, declared length 0..5'))
-    J.append(J_('readv_length', 'harness_readv', D(PMAX=4, WMAX=5, CMAX=3), 8, ['f__ZN6photon3net4http14BodyReadStream5readvEPK5ioveci.0:4'], T,
-                'BodyReadStream::readv into two iovecs', 'body <= 4 bytes, iovecs of 0..3 bytes'))
-    J.append(J_('readv_chunked', 'harness_readv', D(PMAX=pm, NCHUNK=nc, WMAX=wm, CMAX=pm, SRVMAX=max(pm, 3), RV_CHUNKED=True), wm + 2, us + ['f__ZN6photon3net4http14BodyReadStream5readvEPK5ioveci.0:4'], T,
-                'ChunkedBodyReadStream via the inherited readv, two iovecs', 'payload <= %d bytes, iovecs of 0..%d bytes' % (pm, pm)))
-    # ---- Content-Length / close-delimited reader
-    wl = 5 if q else 8
+    # ---- writers and round trips (oracle C)
+    pw, nw = (4, 2) if q else (6, 3)
+    J.append(J_('chunked_write', 'harness_chunked_write', D(PMAX=pw, NCHUNK=nw, WMAX=pw + 5 * nw + 5), pw + 5 * nw + 8, [], T,
+                'ChunkedBodyWriteStream (write / writev / close) emits exactly the chunked coding, terminated once', 'payload <= %d bytes in <= %d writes' % (pw, nw)))
+    d, us, wm = valid(2, 1) if q else valid(2, 2)
+    J.append(J_('chunked_roundtrip', 'harness_chunked_write', D(NCALL=0, ROUNDTRIP=True, **d), wm + 2, us, T,
+                'ChunkedBodyWriteStream -> wire -> ChunkedBodyReadStream (symbolic split and fragmentation) returns the payload',
+                'payload <= %d bytes in <= %d writes' % (d['PMAX'], d['NCHUNK'])))
+    J.append(J_('length_roundtrip', 'harness_length_write', D(PMAX=pw, NCHUNK=nw, WMAX=pw + 1, GMAX=pw + 1, NCALL=2, CMAX=3), pw + 4, ['verif_memcpy_n.0:34'], T,
+                'BodyWriteStream(N) passes exactly the first N bytes; BodyReadStream(N) reads them back',
+                'payload <= %d bytes in <= %d write()/writev() calls, declared length 0..%d' % (pw, nw, pw + 1)))
+    # ---- Content-Length / close-delimited reader (oracle B)
+    wl = 8 if q else 12
+    nl = 4 if q else 6
     for nm, extra in (('length_exact', {}), ('closedelim_exact', dict(CLOSEDELIM=True))):
-        J.append(J_(nm, 'harness_length_exact', D(WMAX=wl, PMAX=wl, GMAX=wl + 1, NCALL=3 if q else 4, CMAX=3, KFRAG=3, **extra), wl + 3, [], T,
+        J.append(J_(nm, 'harness_length_exact', D(WMAX=wl, PMAX=wl, GMAX=wl + 1, NCALL=nl, CMAX=3, KFRAG=3, **extra), wl + 3, [], T,
                     'BodyReadStream (%s): reads return exactly the body, then 0' % ('until close' if extra else 'Content-Length'),
-                    'stream <= %d bytes, declared length 0..%d, %d reads of 1..3 bytes then one of everything' % (wl, wl + 2, 3 if q else 4)))
+                    'stream <= %d bytes, declared length 0..%d, %d reads of 1..3 bytes then one of everything' % (wl, wl + 2, nl)))
     J.append(J_('length_close', 'harness_length_exact', D(WMAX=wl, PMAX=wl, GMAX=wl + 1, NCALL=2, CMAX=3, KFRAG=3, DO_CLOSE=True), wl + 3, [], T,
-                'BodyReadStream::close after a partial read skips exactly the rest of the body', 'stream <= %d bytes, 2 reads of 1..3 bytes' % wl))
+                'BodyReadStream::close after partial reads skips exactly the rest of the body or fails', 'stream <= %d bytes, 2 reads of 1..3 bytes' % wl))
     return J
